@@ -131,6 +131,182 @@ def norm(o):
                 bound="; ".join(pre), meta={"kind": "destructure", "pattern": pname})
 
 
+GRAMMAR_MODULE = MODULE + r'''
+APPLY = cfn("apply")
+QUICK = False
+def keyobj(k):
+    if k[0] == "kw":
+        return K(k[2], ns=k[1]) if k[1] else K(k[2])
+    if k[0] == "str":
+        return k[1]
+    if k[0] == "sym":
+        return sym.symbol(k[2], ns=k[1]) if k[1] else sym.symbol(k[2])
+    return k[1]
+def map_keys(p):
+    """[(binding pattern, key object)] in the order the pattern lists them"""
+    out = []
+    for e in p[1]:
+        if e[0] == "keys":
+            out += [(("sym", n), K(n, ns=e[1]) if e[1] else K(n)) for n in e[2]]
+        elif e[0] == "strs":
+            out += [(("sym", n), n) for n in e[1]]
+        elif e[0] == "syms":
+            out += [(("sym", n), sym.symbol(n, ns=e[1]) if e[1] else sym.symbol(n)) for n in e[2]]
+        else:
+            out.append((e[1], keyobj(e[2])))
+    return out
+def bind(p, v, env):
+    """the documented meaning of a pattern, in terms of the real nth / nthnext / get"""
+    if p[0] == "sym":
+        env[p[1]] = v
+        return
+    if p[0] == "vec":
+        _, ch, rest, as_ = p
+        for i, c in enumerate(ch):
+            bind(c, NTH(v, i, None), env)
+        if rest:
+            env[rest] = NTHNEXT(v, len(ch))
+        if as_:
+            env[as_] = v
+        return
+    _, entries, ors, as_ = p
+    for bp, key in map_keys(p):
+        if bp[0] == "sym" and bp[1] in ors:
+            bind(bp, GET(v, key, eval(ors[bp[1]][1])), env)
+        else:
+            bind(bp, GET(v, key), env)
+    if as_:
+        env[as_] = v
+class Ch:
+    """solver-chosen shape codes and leaf values, consumed in pattern order"""
+    def __init__(self, cs, ls):
+        self.cs, self.ls, self.i, self.j = cs, ls, 0, 0
+    def c(self):
+        k = self.i % len(self.cs); x = self.cs[k]; self.i += 1
+        if QUICK and k >= 2:
+            return 0 if x == 0 else (2 if x == 1 else 3)      # deeper nodes: nil / conforming / short-or-subset
+        return x
+    def leaf(self):
+        k = self.j % len(self.ls); x = self.ls[k]; self.j += 1
+        if QUICK and k >= 3:
+            return None if x == 0 else 1                       # later leaves: nil / int
+        return None if x == -2 else (False if x == -1 else x)
+def build(p, ch):
+    """a value for pattern p: nil, wrongly typed, conforming, short, over-long, lazy, string; maps with any subset of keys"""
+    if p[0] == "sym":
+        return ch.leaf()
+    c = ch.c()
+    if p[0] == "vec":
+        shape = c % 7
+        if shape == 0: return None
+        if shape == 1: return 5
+        if shape == 6: return "ab"
+        items = [build(x, ch) for x in p[1]]
+        if shape == 2: return vec.vector(items + ([ch.leaf(), ch.leaf()] if p[2] else []))
+        if shape == 3: return vec.vector(items[:-1])
+        if shape == 4: return llist.list(items + [ch.leaf()])
+        return cfn("map")(cfn("identity"), vec.vector(items))
+    shape = c % 5
+    if shape == 0: return None
+    if shape == 1: return 5
+    if shape == 4: return vec.vector([ch.leaf(), ch.leaf()])
+    mask = ch.c() if shape == 3 else 15
+    d = {}
+    for i, (bp, key) in enumerate(map_keys(p)):
+        if (mask // (2 ** (i % 4))) % 2 == 1:
+            d[key] = build(bp, ch)      # a value is only chosen for keys that are present
+    return lmap.map(d)
+def kwargs_call(p, ch):
+    """argument list for (fn [& <map pattern>] ...): interleaved pairs for a subset of the keys, optionally a trailing map
+    (which overrides); returns (args, the map the documentation says is destructured)"""
+    ks = map_keys(p)
+    m1, m2, trailing = ch.c(), ch.c(), ch.c() % 2
+    args, model = [], {}
+    for i, (bp, key) in enumerate(ks):
+        if (m1 // (2 ** (i % 4))) % 2 == 1:
+            val = build(bp, ch); args += [key, val]; model[key] = val
+    if trailing:
+        t = {}
+        ch2 = Ch(ch.cs, [7, 8, 9])      # trailing-map values are plain ints (the pairs already cover nil / false values)
+        for i, (bp, key) in enumerate(ks):
+            if (m2 // (2 ** (i % 4))) % 2 == 1:
+                val = build(bp, ch2); t[key] = val; model[key] = val
+        args.append(lmap.map(t))
+    return args, (lmap.map(model) if args else None)
+def refvec(v):
+    env = {}
+    bind(PAT, v, env)
+    return vec.vector([env[n] for n in NAMES])
+def norm(o):
+    def n(c):
+        if isinstance(c, tuple) and c and c[0] in ("seq", "vec"):
+            return (c[0], [n(e) for e in c[1]])
+        return c
+    return (o[0], n(o[1])) if o[0] == "ret" else o
+def mkval(cs, ls):
+    return build(PAT, Ch(cs, ls))
+def DIAG2(cs, ls):
+    try:
+        if KWARGS:
+            args, m = kwargs_call(PAT, Ch(cs, ls))
+            return {"args": repr(args), "compiled": repr(outcome(lambda: canon(APPLY(F, llist.list(args))))), "reference": repr(outcome(lambda: canon(refvec(m))))}
+        v = mkval(cs, ls)
+        return {"value": repr(v), "compiled": repr(outcome(lambda: canon(F(v)))), "macroexpanded": repr(outcome(lambda: canon(FX(v)))),
+                "reference": repr(outcome(lambda: canon(refvec(v))))}
+    except Exception as e:
+        return {"diag_error": repr(e)}
+'''
+
+
+def grammar_spec(pname, pat, form, timeout, quick=False):
+    from .c09_grammar import compound_nodes, names, src as psrc
+    nm = []
+    for n in names(pat):
+        if n not in nm:
+            nm.append(n)
+    ncs = max(2, 2 * compound_nodes(pat)) + (3 if form == "kwargs" else 0)
+    lsrc = FORMS[form].format(pat=psrc(pat), names="[" + " ".join(nm) + "]") if form != "kwargs" else f"(fn [& {psrc(pat)}] [{' '.join(nm)}])"
+    mod = GRAMMAR_MODULE + f'''
+PAT = {pat!r}
+NAMES = {nm!r}
+SRC = {lsrc!r}
+F = lisp_eval(SRC, "verif.c09")
+FX = lisp_eval("(eval (macroexpand (quote " + SRC + ")))", "verif.c09")
+REF = refvec
+KWARGS = {form == "kwargs"}
+QUICK = {bool(quick and form != "kwargs")}
+'''
+    if form == "kwargs":
+        body = '''    args, m = kwargs_call(PAT, Ch(cs, ls))
+    want = outcome(lambda: canon(refvec(m)))
+    got = outcome(lambda: canon(APPLY(F, llist.list(args))))
+    gotx = outcome(lambda: canon(APPLY(FX, llist.list(args))))'''
+    else:
+        body = '''    v = mkval(cs, ls)
+    want = outcome(lambda: canon(refvec(v)))
+    got = outcome(lambda: canon(F(v)))
+    gotx = outcome(lambda: canon(FX(v)))'''
+    body += '''
+    if want[0] == "exc":
+        return got[0] == "exc" and gotx[0] == "exc"
+    return norm(got) == norm(want) and norm(gotx) == norm(want)'''
+    nls = 5
+    pre = [f"0 <= c{i} < 16" for i in range(ncs)] + [f"-2 <= l{i} <= 2" for i in range(nls)]   # leaf code -2 = nil, -1 = false
+    if quick and form != "kwargs":
+        # quick tier: full shape range for the first two compound nodes, nil / conforming / short-or-subset for deeper ones;
+        # full leaf range for the first three leaves, nil / int for the rest (the thorough tier lifts both restrictions)
+        # (ranges, not disjunctions: a disjunctive precondition forks once per disjunct even for inputs the body never reads)
+        pre = [f"0 <= c{i} < 16" if i < 2 else f"0 <= c{i} < 3" for i in range(ncs)] + \
+              [f"-2 <= l{i} <= 2" if i < 3 else f"0 <= l{i} < 2" for i in range(nls)]
+    sig = ", ".join([f"c{i}: int" for i in range(ncs)] + [f"l{i}: int" for i in range(nls)])
+    body = f"    cs, ls = [{', '.join(f'c{i}' for i in range(ncs))}], [{', '.join(f'l{i}' for i in range(nls))}]\n" + body
+    mod += "def DIAG(**k):\n    return DIAG2([v for n, v in sorted(k.items()) if n[0] == 'c'], [v for n, v in sorted(k.items()) if n[0] == 'l'])\n"
+    return Spec(f"grammar/{pname}/{form}", harness(sig, body, pre=pre, module_code=mod, warm=[]), timeout=timeout,
+                bound=("; ".join(pre) + "; " if quick else "") + f"pattern {psrc(pat)}; value shapes per compound node: nil, int, conforming, short, over-long, lazy seq, string / map with any key subset, "
+                      "vector; leaves nil, false, 0..2",
+                meta={"kind": "destructure-grammar", "pattern": pname, "pattern_src": psrc(pat), "form": form})
+
+
 SQ_MODULE = MODULE + r'''
 _ns = _get_ns("verif.c09")
 lisp_eval("(def local-var 1) (require (quote [basilisp.string :as s]))", "verif.c09")
@@ -196,16 +372,29 @@ def run(rep, tier, seed):
     for pname, (pat, names, ref) in MAP_PATTERNS.items():
         for f in forms:
             specs.append(destructure_spec(pname, "map", pat, names, ref, f, to))
+    # generated patterns over the documented vocabulary (depth <= 3): featured ones in every run + seeded random ones
+    from .c09_grammar import generate
+    gforms = ["let", "fn-param", "loop"]
+    for i, (pname, pat) in enumerate(generate(seed, 14, 3, 4) if quick else generate(seed, 60)):
+        fs = [gforms[i % 3]] if quick else gforms
+        if pat[0] == "map" and (not quick or pname.endswith("defaults")):
+            fs = fs + ["kwargs"]
+        for f in fs:
+            from .c09_grammar import compound_nodes as _cn, names as _nm
+            big = _cn(pat) >= 3 or len(_nm(pat)) >= 4
+            specs.append(grammar_spec(pname, pat, f, to * 2 if (quick and big) else to, quick))
     specs += syntax_quote_specs(to)
     rep.bounds = {"destructuring": f"{len(SEQ_PATTERNS) + len(MAP_PATTERNS)} patterns (depth <= 2) x {forms}; values: vector/list/lazy seq/nil of <= 3 "
                                    "nil/int (one nested), maps with symbolic key presence, nil",
                   "syntax-quote": "4 templates; unquoted int, spliced seq of <= 3; gensyms: same within a template, different between templates and between two reads of the same text"}
-    rep.outside = ["patterns and templates are enumerated", "depth-3 patterns", "keyword-argument rests", "wrongly-typed scalars"]
+    rep.outside = ["syntax-quote templates are a fixed set", "patterns are a generated sample of the grammar, not all of it", "rest patterns that are themselves patterns (not in the documented vocabulary)"]
     rep.trusted += ["crosshair-tool 0.0.110 + z3"]
     rep.extra["explanation"] = ("the oracle for destructuring is the real nth / nthnext / get applied by a 1-line reference per pattern; "
                                 "form and (macroexpand form) are both compiled and compared on the same symbolic values")
 
     def matcher(spec, cex):
+        if spec.meta["kind"] == "destructure-grammar":
+            return {"kind": "destructure-grammar", "pattern_src": spec.meta["pattern_src"], "form": spec.meta["form"]}
         return {"kind": spec.meta["kind"], "pattern": spec.meta.get("pattern", "")}
 
     run_specs(rep, specs, matcher, lambda s, c: f"{s.name}: {c}")
